@@ -2018,6 +2018,11 @@ impl FixedLpc {
         }
         let warm_up = heapless::Vec::from_slice(warm_up)
             .map_err(|()| VerifyError::new("warm_up", "must be shorter than (or equal to) 4"))?;
+        verify_true!(
+            "warm_up.len",
+            warm_up.len() == residual.warmup_length(),
+            "must be equal to the warm-up length of `residual`"
+        )?;
         let ret = Self::from_parts(warm_up, residual, bits_per_sample as u8);
         Ok(ret)
     }
@@ -2116,6 +2121,16 @@ impl Lpc {
                 "must be shorter than (or equal to) `qlpc::MAX_ORDER`",
             )
         })?;
+        verify_true!(
+            "warm_up.len",
+            warm_up.len() == parameters.order(),
+            "must be equal to the order of `parameters`"
+        )?;
+        verify_true!(
+            "warm_up.len",
+            warm_up.len() == residual.warmup_length(),
+            "must be equal to the warm-up length of `residual`"
+        )?;
         let ret = Self::from_parts(warm_up, parameters, residual, bits_per_sample as u8);
         ret.verify()?;
         Ok(ret)
